@@ -252,8 +252,15 @@ func nextRangeIndexArgument(cmd string, name string, args Arguments) (int, error
 
 func nextRangeScoreIndexArgument(cmd string, name string, args Arguments) (float64, bool, error) {
 	str, err := args.NextString()
-	if err != nil || len(str) == 0 {
+	if err != nil {
 		return 0, false, newMissingArgumentError(cmd, name, err)
+	}
+	return parseRangeScoreIndex(cmd, name, str)
+}
+
+func parseRangeScoreIndex(cmd string, name string, str string) (float64, bool, error) {
+	if len(str) == 0 {
+		return 0, false, newMissingArgumentError(cmd, name, nil)
 	}
 	offset := 0
 	exclusive := false
@@ -266,6 +273,14 @@ func nextRangeScoreIndexArgument(cmd string, name string, args Arguments) (float
 		return 0, false, newInvalidArgumentError(cmd, name, err)
 	}
 	return rng, exclusive, nil
+}
+
+func parseRangeIndex(cmd string, name string, str string) (int, error) {
+	idx, err := strconv.Atoi(str)
+	if err != nil {
+		return 0, newInvalidArgumentError(cmd, name, err)
+	}
+	return idx, nil
 }
 
 func nextRangeOptionArguments(cmd string, args Arguments) (ZRangeOption, error) {
